@@ -535,6 +535,7 @@ type vecRun struct {
 	reloaded bool
 	live     map[int]int // id -> pool vector (driver bookkeeping for choosing operations only)
 	resident map[int]bool
+	nsearch  int
 }
 
 func (r *vecRun) reset() error {
@@ -694,6 +695,10 @@ func (r *vecRun) exec(op vop) error {
 				}
 			}
 		}
+		if op.ThrV < 0 && len(op.Q) > 0 && !e.lattice { // a tiny positive threshold: only distance 0 lies within it (rendered as one unit; not on the lattice, where a unit is a real distance)
+			s = s.WithThreshold(1e-30)
+			thr = 1
+		}
 		thrid := 0
 		if op.ThrOwn > 0 && len(op.Q) == 1 && len(op.Nodes) == 0 {
 			// the threshold is a score the index reported itself: that hit lies within the threshold, whatever the rounding
@@ -737,6 +742,19 @@ func (r *vecRun) exec(op vop) error {
 		for _, x := range rs {
 			res = append(res, [2]int64{int64(x.GetId()), fx(float64(x.GetScore()), e.scale)})
 		}
+		// the same builder executed a second time answers the same question again
+		re, res2 := false, [][2]int64{}
+		if err == nil && (len(op.Nodes) > 0 || r.nsearch%5 == 0) {
+			re = true
+			rs2, err2 := s.WithK(op.K).Execute()
+			if err2 != nil {
+				res2 = append(res2, [2]int64{-1, -1})
+			}
+			for _, x := range rs2 {
+				res2 = append(res2, [2]int64{int64(x.GetId()), fx(float64(x.GetScore()), e.scale)})
+			}
+		}
+		r.nsearch++
 		p := op.P
 		if e.kind == "ivfpq" && op.P == 0 {
 			p = int(math.Sqrt(float64(e.nlist))) // the builder's documented default
@@ -748,7 +766,7 @@ func (r *vecRun) exec(op vop) error {
 			p = 0
 		}
 		r.t.ev("search", E{"qs": nzi(op.Q), "nodes": nzi(op.Nodes), "k": op.K, "thr": thr, "filt": nzi(op.Filt), "p": p, "agg": agg,
-			"ok": err == nil, "res": res, "thrid": thrid})
+			"ok": err == nil, "res": res, "thrid": thrid, "re": re, "res2": res2})
 	case "obs":
 		return r.battery()
 	default:
@@ -780,6 +798,15 @@ func (r *vecRun) battery() error {
 		// thresholds that coincide with stored distances
 		for _, tv := range []int{1, 2, 3} {
 			if err := r.exec(vop{A: "search", Q: []int{q}, K: -1, P: -1, ThrV: tv}); err != nil {
+				return err
+			}
+		}
+		if err := r.exec(vop{A: "search", Q: []int{q}, K: -1, P: -1, ThrV: -1}); err != nil {
+			return err
+		}
+		// a restriction that names one id only (possibly a removed one)
+		for _, f := range [][]int{{1}, {2, 2}} {
+			if err := r.exec(vop{A: "search", Q: []int{q}, K: -1, P: -1, Filt: f}); err != nil {
 				return err
 			}
 		}
